@@ -139,6 +139,59 @@ def check_overwidth(p):
     return devs
 
 
+# ---- size limits that are reached only through the sum of several parts ------------------------------
+
+
+def expand_limit_case(c):
+    """Compact description -> plain-data PDU (thousands of list elements / names of exact lengths are not written out in the case)."""
+    conf = c["conf"]
+    k = c["k"]
+    if k == "nak_max":
+        fss = 8 if conf["large"] else 4
+        n = (65535 - 1 - 2 * fss - (2 if conf["crc"] else 0)) // (2 * fss) + c["delta"]
+        top = (1 << (8 * fss)) - 1
+        return {"kind": "nak", "conf": conf, "start": 0, "end": top, "segs": [[i * 3, top - i] for i in range(n)]}
+    if k == "finished_fsresp_len":
+        # one filestore response whose TLV value is exactly c["vlen"] octets: status octet + name LV(s) + message LV
+        action = 2 if c["second"] else 0
+        m = c["msg"]
+        rest = c["vlen"] - 1 - (1 + m) - (2 if c["second"] else 1)
+        a = rest // 2 if c["second"] else rest
+        b = rest - a
+        r = {"t": "fsresp", "action": action, "status": 0, "n1": "a" * a, "n2": ("b" * b) if c["second"] else "", "msg": "5a" * m}
+        before = [{"t": "fsresp", "action": 0, "status": 1, "n1": "x", "n2": "", "msg": ""}] if c["lead"] else []
+        return {"kind": "finished", "conf": conf, "cc": 0, "delivery": 1, "status": 2, "responses": before + [r] + before, "fault": None}
+    if k == "metadata_long":
+        opts = [{"t": "flow", "v": "11" * c["opt"]}, {"t": "msg", "v": "22" * 255}] if c["opt"] is not None else None
+        return {"kind": "metadata", "conf": conf, "closure": True, "cktype": 1, "size": 1, "src_name": "s" * c["src"], "dst_name": "d" * c["dst"], "options": opts}
+    raise ValueError(k)
+
+
+def enum_limits(tier, shard, nshards, rng):
+    confs = []
+    for crc in (0, 1):
+        for large in (0, 1):
+            for idw, seqw in ((1, 1), (8, 8), (2, 4)) if tier == "thorough" else ((1, 1), (8, 4)):
+                confs.append({"crc": crc, "large": large, "mode": 0, "dir": 0, "segctrl": 0, "idw": idw, "seqw": seqw, "src": 1, "dst": (1 << (8 * idw)) - 1, "seq": 7})
+    cases = []
+    for conf in confs:
+        for delta in (0, -1):
+            cases.append({"k": "nak_max", "conf": conf, "delta": delta})
+        for vlen in (252, 253, 254, 255):
+            for second in (False, True):
+                cases.append({"k": "finished_fsresp_len", "conf": conf, "vlen": vlen, "second": second, "msg": 0 if vlen % 2 else 9, "lead": vlen >= 254 and second})
+        cases.append({"k": "metadata_long", "conf": conf, "src": 255, "dst": 255, "opt": 255})
+        cases.append({"k": "metadata_long", "conf": conf, "src": 254, "dst": 255, "opt": None})
+        cases.append({"k": "metadata_long", "conf": conf, "src": 127, "dst": 128, "opt": 0})
+    for i, c in enumerate(cases):
+        if i % nshards == shard:
+            yield c
+
+
+def check_limits(c):
+    return check_pdu(expand_limit_case(c))
+
+
 # ---- ACK of anything but EOF / Finished --------------------------------------------------------
 
 
@@ -180,6 +233,18 @@ CLAUSES = [
     )
     for kind in DIRECTIVES
 ] + [
+    Clause(
+        id="C06.limits",
+        doc="sizes reached only through the sum of parts: NAK with the maximum (and maximum-1) number of segment requests a 16-bit data field holds, Finished with a filestore "
+            "response whose TLV value is exactly 252..255 octets (one / two names, with / without neighbours), Metadata with 255-octet names and options; same oracle as the directive clauses",
+        kind="enum",
+        enum=enum_limits,
+        check=check_limits,
+        classify=lambda c: [c["k"]] + (["crc on"] if c["conf"]["crc"] else ["crc off"]) + (["large file"] if c["conf"]["large"] else []),
+        required=["nak_max", "finished_fsresp_len", "metadata_long", "crc on", "large file"],
+        shards={"quick": 8, "thorough": 16},
+        exhaustive_note="all listed limit cases x {CRC on/off} x {32/64-bit sizes} x 2 (quick) / 3 (thorough) id/sequence width pairs",
+    ),
     Clause(
         id="C06.overwidth",
         doc="file-size-sensitive values that do not fit the selected width make packing fail rather than truncate",
